@@ -239,6 +239,21 @@ pub struct Cfg {
     pub read_chunk: usize,
     /// every k-th write()/read() call is interrupted once with EINTR (0 = never)
     pub eintr_every: usize,
+    /// every hash seed used in the run is xor-ed with this (H-replicas of C19)
+    #[serde(default)]
+    pub hash_xor: u64,
+    /// (N, capacity) the contract is judged by, when the graph itself is built larger (K-replicas of C19)
+    #[serde(default)]
+    pub contract: Option<(usize, usize)>,
+}
+
+impl Cfg {
+    pub fn contract_n(&self) -> usize {
+        self.contract.map_or(self.n, |c| c.0)
+    }
+    pub fn contract_cap(&self) -> usize {
+        self.contract.map_or(self.cap, |c| c.1)
+    }
 }
 
 #[derive(Serialize, Deserialize, Clone, Debug)]
